@@ -39,6 +39,9 @@ template <class S> static S draw_value(S def, bool wild) {
     }
   }
   if (def == S(0) || def == marker<S>() || !(def == def)) return (S)R->pm(0.1L, 1.0L);
+  // mostly a neighbourhood of the default, one time in three up to two decades away from it (branches of piecewise closures that the
+  // defaults never enter; purity and the store do not depend on admissibility)
+  if (R->below(3) == 0) return (S)((long double)def * powl(10.0L, R->uni(-2.0L, 2.0L)));
   return (S)((long double)def * R->uni(0.5L, 1.5L));
 }
 
